@@ -377,6 +377,12 @@ func buildValue(vc vlCase) (reflect.Value, error) {
 		return reflect.ValueOf(fixt.Cross{BS: "bs"}), nil
 	case "crossEmpty": // empty, non-nil containers of the other package's type
 		return reflect.ValueOf(fixt.Cross{Name: "n", SB: []fixt2.B{}, MB: map[string]fixt2.B{}}), nil
+	case "chainDeep": // 40 nodes linked by pointers: nothing about a value's depth makes a pointer nil
+		var head *fixt.Chain
+		for i := 40; i >= 1; i-- {
+			head = &fixt.Chain{N: i, Next: head}
+		}
+		return reflect.ValueOf(*head), nil
 	case "outerZero":
 		return outer(func(o *fixt.Outer) {}), nil
 	case "outerPInZero":
